@@ -2,10 +2,12 @@ mod alloc_count;
 mod codec;
 mod hist;
 mod ks;
+mod prov;
 mod provider;
 mod storage;
 mod store;
 mod treemath;
+mod x509gen;
 
 #[global_allocator]
 static GLOBAL: alloc_count::Counting = alloc_count::Counting;
@@ -19,6 +21,7 @@ fn main() {
         "hist" => hist::run(),
         "ks" => ks::run(),
         "store" => store::run(),
+        "prov" => prov::run(),
         _ => {
             eprintln!("usage: mlsh <treemath|...>");
             2
